@@ -231,6 +231,8 @@ pub struct Run {
     pub seed: u64,
     pub level: &'static str,
     pub threads: usize,
+    /// wall-clock budget for shrinking one failure (ms); shrinking only minimises, it never decides
+    pub shrink_ms: u32,
     started: Instant,
     stats: Stats,
     phases: Vec<Value>,
@@ -282,6 +284,7 @@ impl Run {
             seed,
             level,
             threads,
+            shrink_ms: 8000,
             started: Instant::now(),
             stats: Stats::default(),
             phases: vec![],
@@ -411,6 +414,7 @@ impl Run {
                                 failure_persistence: None,
                                 rng_seed: RngSeed::Fixed(seed),
                                 max_shrink_iters: 3000,
+                                max_shrink_time: this.shrink_ms,
                                 max_global_rejects: 1 << 30,
                                 verbose: 0,
                                 ..Config::default()
